@@ -3,6 +3,7 @@ import ast
 
 from ..astutil import callable_parts, catches_everything, dotted, effective, method_call
 from ..cfg import cfg_of, fact_key, norm, walk_own
+from ..consteval import fold_in
 from ..flow import cannot_raise
 from ..mutate import B, M
 from ..symexec import paths_of
@@ -193,7 +194,8 @@ def check(ctx):
             if isinstance(cause, ast.Name):
                 defs = [s for s in walk_own(ps.node) if isinstance(s, ast.Assign) and norm(s.targets[0]) == cause.id]
                 src = defs[-1].value if defs else cause
-            okc = isinstance(src, ast.Subscript) and norm(src.value) == 'reporter.errors'
+            # is_error_reported() promises one error, not two: only the first or the last element exists for sure
+            okc = isinstance(src, ast.Subscript) and norm(src.value) == 'reporter.errors' and fold_in(ps, src.slice) in (0, -1)
         ctx.inst('R2', ps, 'raise-chained', okc, 'raise must chain an element of reporter.errors (`from`); found cause %s' % (norm(cause) if cause else None))
     # the only way to leave with the flag set is the raise: inspection's true edge leads to raise on all paths
     tests = [n for n in g.nodes if n.kind == 'if' and 'is_error_reported' in norm(n.ast.test) and any(g.dominates(n, r) for r in raises)]
@@ -361,6 +363,7 @@ def check(ctx):
 
 
 VARIANTS = [
+    M('R2', SW, "            first_error = reporter.errors[0]", "            first_error = reporter.errors[1]", 'second error chained'),
     M('R5', 'cflib/crazyflie/syncCrazyflie.py', "        if self._connect_event:\n            # The link was lost before the connection was fully set up\n            self._error_message = 'Connection to %s lost during connection setup' % link_uri\n            self._connect_event.set()\n", "", 'link loss during set-up never wakes open_link'),
     M('R1', SW, '        for thread in threads:\n            thread.join()', '        for thread in threads[:1]:\n            thread.join()', 'join only first'),
     M('R1', SW, '        for thread in threads:\n            thread.join()', '        for thread in threads:\n            thread.join(1.0)', 'timed join'),
